@@ -40,6 +40,7 @@ def worker_init():
 
 
 _calls = [0]
+_held = []
 
 
 def orig_env():
@@ -81,6 +82,10 @@ def cases(tier, seed):
     for name in LONG_SIGNALS:
         for ci in range(3):
             yield ('fbl', name, seed, tier, ci)
+    # fixed counts far beyond a few dozen, on a nearly mono-component record (the envelope mean becomes tiny long
+    # before the count is reached) with and without an offset, both signs
+    for ci in range(4):
+        yield ('fbl', ('tone', 256, 1, 'none', 'none'), seed, tier, 10 + ci)
     for name in signals.fb_names(b['fb_sizes']):
         yield ('fb', name, seed, tier)
         if name[1] <= 100:
@@ -105,7 +110,12 @@ def signal_of(case):
         if case[0] == 'fa-huge':
             return x * 1e7
     else:
-        x = signals.fb_signal(case[1], case[2])
+        if case[0] == 'fbl' and len(case) > 4 and case[4] >= 10:
+            t = np.linspace(0, 1, 256)
+            x = np.sin(2 * np.pi * (9.3 + 0.1 * (case[2] % 5)) * t + 0.4)
+            x = (x + (0.0, 3.0, 3.0, 0.0)[case[4] - 10]) * (1.0, 1.0, -1.0, -1.0)[case[4] - 10]
+        else:
+            x = signals.fb_signal(case[1], case[2])
     if case[0].endswith('-res'):
         # non-initial state: the residual left after the reference's first default extraction
         seq = Seq(x[:, None], 'splrep', 2, 1.0)
@@ -240,6 +250,13 @@ def check_case(case):
             return
         trans += 1
         ncalls = _calls[0]
+        # a result handed out earlier belongs to the caller: a later extraction must not have changed it
+        if _held:
+            h_obj, h_copy, h_tag = _held.pop()
+            if not np.array_equal(h_obj, h_copy, equal_nan=True):
+                viols.append(('earlier-result-changed', 'the array returned by [%s] was changed by the later call [%s]' % (h_tag, tag)))
+        if raised is None and isinstance(imf, np.ndarray):
+            _held.append((imf, imf.copy(), tag))
         if margin < 1e-9:
             excluded += 1
             return
@@ -297,6 +314,11 @@ def check_case(case):
             if not input_final:
                 viols.append(('harness:extrema-count', '%s: envelope stage and own extrema counter disagree' % tag))
 
+    if case[0] == 'fbl' and case[4] >= 10:
+        seq = Seq(X, ENVS[0][0], ENVS[0][1], 1.0)
+        for n_ in (64, 65, 129, 200, 400):
+            one(seq, 'fixed', n_, 1.0, n_, ENVS[0][0], ENVS[0][1])
+        return Outcome(cls='long-run', transitions=trans, viols=viols, nontrivial=maxdepth >= 33)
     if case[0] == 'fbl':
         sd, mi = LONG_CFG[case[4]]
         seq = Seq(X, ENVS[0][0], ENVS[0][1], 1.0)
